@@ -34,6 +34,7 @@
 #include "parser.h"
 #include "stack.h"
 #include "token.h"
+#include "verif_hooks.h"
 /**************** End of %include directives **********************************/
 /* These constants specify the various numeric values for terminal symbols
 ** in a format understandable to "makeheaders".  This section is blank unless
@@ -1882,6 +1883,7 @@ static void yy_parse_failed(
 	/************ Begin %parse_failure code ***************************************/
 
 	fprintf(stderr, "Parser failed to successfully parse.\n");
+	MMD6_EVENT(MMD6_EV_PARSE_FAILED, 0, 0);
 	/************ End %parse_failure code *****************************************/
 	ParseARG_STORE; /* Suppress warning about unused %extra_argument variable */
 }
@@ -1898,6 +1900,7 @@ static void yy_syntax_error(
 	ParseARG_FETCH;
 #define TOKEN yyminor
 	/************ Begin %syntax_error code ****************************************/
+	MMD6_EVENT(MMD6_EV_PARSE_SYNTAX, yymajor, 0);
 
 #ifndef NDEBUG
 	fprintf(stderr, "Parser syntax error.\n");
